@@ -48,6 +48,28 @@ What the misses taught and what was strengthened:
 | C18 | `isinstance` lookup: registered base + (un)registered subclass | only flat classes were generated | class hierarchies: defined base + defined subclass, defined base + unregistered subclass, decorated base + decorated subclass (the last one exposed a genuine defect, fixed - §5.1) |
 | C20 | request without any arguments goes out unencrypted, so the result travels in clear | every generated request carried the marker in its arguments | argument-less requests (the result still carries the marker) |
 
+A **second round** of 20 independent agents (`seeded/<ID>b/`) was then asked for a *different* mechanism at a
+different code site (each was told the one-line summary of the first seed for its property, nothing about the checks).
+First contact, quick tier: 12 caught at once (C02b C03b C05b C06b C08b C09b C10b C11b C13b C14b C17b C18b), 8 missed:
+
+| prop | seeded change needs | gap in my check | strengthening |
+|---|---|---|---|
+| C01b | asyncio adapter drains one queued chunk per wake-up: several `data_received` calls within one loop turn | every read was followed by a run of the event loop | fourth delivery mode "burst" (several reads per loop turn) in the pair driver, fifth schedule in C02 |
+| C04b | `PublishOptions(eligible=[])`: an explicitly empty white/blacklist is dropped from PUBLISH | the option oracle treated `[]` and absent as equal, and only three of the six list options were drawn | all six list options drawn from {absent, single, list, empty list}; exact comparison |
+| C07b | client request target built from the percent-*decoded* path | URL generator had no escapes | percent-escapes (space, `/`, `?`, `#`, `%`, non-ASCII) in path and query; target must be exactly as written |
+| C12b | RSV1 on a continuation frame of an *uncompressed* message in a compressed session | C12 had negotiation negatives only (C02 caught this one, C12 did not) | enumerated frame-bit job: 15 RSV1 scenarios x roles x failByDrop x 3 schedules |
+| C15b | streaming API reuses one masking key for all frames of a message | policy check only flagged "all frames share one key" | no two client frames share a key; the 32-bit draw is made collision-free inside the check |
+| C16b | receive limits not enforced while the local close handshake is in progress | limits were only exercised in OPEN state | a quarter of the cases call `sendClose()` first; the over-limit header must drop the transport, at-limit messages still arrive |
+| C19b | `AuthScram.on_welcome` accepts a WELCOME without any processed CHALLENGE (signature over empty inputs) | server signature only checked after a real exchange | fresh authenticator x {genuine signature of another exchange, HMAC of empty inputs, zeros} must not be accepted |
+| C20b | `KeyRing` memoises URI->key: stale key after `set_key()` for a covering prefix | keyrings were fully configured before first use, and both ends being stale is self-consistent | "rekey" layout: warm-up exchange, `set_key` on both ends, then the message must open under the *new* key with PyNaCl directly and ciphertexts under the superseded key are refused |
+
+One agent (seed2-C02) also reported, as a side observation on the *unmodified* tree, that with failByDrop off a
+violating frame header followed by further reads makes the endpoint drop TCP right after its 1002 close frame,
+while the same octets in one read leave it waiting for the peer's close reply. I had met this while building C02
+and treat it as outside the statement: delivered events, the announced status and "nothing after the violation"
+are identical under every split; only the moment of the TCP drop *after* the connection was failed differs
+(the schedule comparison therefore ignores the drop flag once the verdict is announced).
+
 After strengthening, `tools/sensitivity.py` (quick tier) gives the table below;
 it is regenerated, not hand-edited. The thorough tier is a superset of the
 quick tier's jobs.
